@@ -29,7 +29,7 @@ BADT = ["float16", "complex64", "bool", "uint64", "int8", "float32"]
 # Parameters that are documented as the amount of output/work requested (a number of moments, a radius in pixels of a
 # structuring element to allocate): a huge value asks for a proportionally huge computation bounded by the memory limit,
 # which is not a hang of a degenerate call.  They still receive 0, negative, fractional and NaN values.
-WORK_PARAMS = {("features.zernike_moments", "degree"), ("features.zernike", "degree"),
+WORK_PARAMS = {("features.zernike_moments", "degree"), ("features.zernike", "degree"), ("features.zernike", 1),
                # minlength is the length of the returned array: 2**31 entries are allocated and filled as asked
                ("labeled_sum", "minlength"), ("labeled.labeled_sum", "minlength"), ("labeled.labeled_max", "minlength"),
                ("labeled.labeled_min", "minlength"), ("labeled.labeled_size", "minlength")}
